@@ -8,7 +8,8 @@ from ..model import Sweep, compare_nested, short
 from ..sched import Scheduler
 from ..world import Violation, HarnessError
 from . import cropgen as G
-from .crop import xyz_site
+from . import farmers as F
+from .crop import xyz_site, check_dataset
 
 NAME = "rc"
 
@@ -39,10 +40,23 @@ def run_c11(ctx):
     sweep = Sweep(kind, [("a", vals)], None, {"k": 3} if t.flag(1, 3, "const") else {})
     fn = calllog.make_fn(kind, ["a"] + list(sweep.constants))
     shuffle = t.pick([False, True, 3], "shuffle")
+    # the reaper may deliver into a Runner / Harvester (labelled dataset, data file)
+    role = t.weighted([(None, 3), ("runner", 1), ("harvester", 1)], "farmer")
+    fspec = None
+    if role is not None:
+        fspec = F.FarmerSpec(role, kind, runner_constants=dict(sweep.constants),
+                             data_name=os.path.join(root, "hv.h5") if role == "harvester" else None,
+                             engine=t.pick(["h5netcdf", "joblib"], "engine") if role == "harvester" else None)
+        if fspec.engine == "joblib":
+            fspec.data_name = os.path.join(root, "hv.dmp")
     with w.actor("sower"):
-        crop = xyzpy.Crop(fn=fn, name=NAME, parent_dir=root, num_batches=B)
-        crop.sow_combos({"a": vals}, constants=dict(sweep.constants) or None,
-                        shuffle=shuffle, verbosity=0)
+        if fspec is not None:
+            crop = fspec.build(fn).Crop(name=NAME, parent_dir=root, num_batches=B)
+            crop.sow_combos({"a": vals}, shuffle=shuffle, verbosity=0)
+        else:
+            crop = xyzpy.Crop(fn=fn, name=NAME, parent_dir=root, num_batches=B)
+            crop.sow_combos({"a": vals}, constants=dict(sweep.constants) or None,
+                            shuffle=shuffle, verbosity=0)
     batches = G.read_batch_files(location)
     if len(batches) != B:
         raise HarnessError("expected {} batches got {}".format(B, len(batches)))
@@ -65,7 +79,7 @@ def run_c11(ctx):
     npolls = t.int_between(1, 4, "npolls") if poller_on else 0
     policy = t.pick(["uniform", "pct", "conflict"], "policy")
     ctx.t("scenario", {"B": B, "per": per, "kind": kind, "shuffle": shuffle,
-                       "growers": assign, "poller": npolls, "policy": policy,
+                       "growers": assign, "poller": npolls, "policy": policy, "farmer": role,
                        "bufsize": cfg["bufsize"], "split": cfg["split_writes"],
                        "op_cost": cfg["op_cost"]})
     sched = Scheduler(w, policy=policy, stay=t.pick([1, 2, 4], "stay"),
@@ -114,15 +128,17 @@ def run_c11(ctx):
 
     def grower(mine):
         def f():
-            c = xyzpy.Crop(name=NAME, parent_dir=root)
-            for b in mine:
-                xgrow(b, c, verbosity=0)
-                completed.setdefault(b, w.steps)
-                w.note("grow-done", b)
-            state["growers_left"] -= 1
-            if state["growers_left"] == 0:
-                state["all_done_step"] = w.steps
-                state["all_done_clock"] = w.clock
+            try:
+                c = xyzpy.Crop(name=NAME, parent_dir=root)
+                for b in mine:
+                    xgrow(b, c, verbosity=0)
+                    completed.setdefault(b, w.steps)
+                    w.note("grow-done", b)
+            finally:
+                state["growers_left"] -= 1
+                if state["growers_left"] == 0:
+                    state["all_done_step"] = w.steps
+                    state["all_done_clock"] = w.clock
         return f
 
     def reaper():
@@ -166,6 +182,10 @@ def run_c11(ctx):
     ctx.stats["switches"] += sched.switches
     ctx.stats["sched-steps"] += sched.steps
     ctx.stats["policy-" + policy] += 1
+    for a in gactors:
+        if a.exc is not None and not isinstance(a.exc, (HarnessError,)):
+            raise Violation("grower-raised", "{} raised {}: {}".format(
+                a.name, type(a.exc).__name__, short(str(a.exc), 200)), site=xyz_site(a.exc))
     if w.aborting:
         # step cap: is the reaper stuck although every grower is done?
         if state["growers_left"] == 0 and not ractor.finished:
@@ -182,9 +202,16 @@ def run_c11(ctx):
         e = ractor.exc
         raise Violation("reaper-raised", "reap(wait=True) raised {}: {}".format(
             type(e).__name__, short(str(e), 200)), site=xyz_site(e))
-    bad = compare_nested(ractor.result, sweep, True)
-    if bad is not None:
-        raise Violation("waiting-reap-differs/" + bad[0], bad[1])
+    if role is None:
+        bad = compare_nested(ractor.result, sweep, True)
+        if bad is not None:
+            raise Violation("waiting-reap-differs/" + bad[0], bad[1])
+    else:
+        check_dataset(ractor.result, sweep, True, None, kind, "waiting-reap-differs")
+        if role == "harvester":
+            with w.actor("fresh-reader"):
+                disk = xyzpy.load_ds(fspec.data_name, engine=fspec.engine)
+            check_dataset(disk, sweep, True, None, kind, "harvested-file-after-waiting-reap")
     if pactor is not None and pactor.exc is not None:
         e = pactor.exc
         raise Violation("poller-raised", "progress query raised {}: {}".format(
